@@ -60,4 +60,13 @@ CHECKS = {
                  "first interceptor's wrapped conn is next to the network"],
  'jobs': [{'pkg': 'c16', 'run': 'TestTrees', 'checks': {'quick': 8000, 'thorough': 300000}, 'shards': {'quick': 4, 'thorough': 16}},
           {'pkg': 'c16', 'run': 'TestCompositions'}]},
+    'C19': {'level': 'exploration',
+ 'assumptions': ['the other interceptors around WithRecover are pass-through; panics are raised by handler code (not by interceptors)',
+                 "calls are carried by the in-memory transport, which records a panic that escapes ServeHTTP like net/http's server would"],
+ 'jobs': [{'pkg': 'c19', 'run': 'TestRecover', 'checks': {'quick': 6000, 'thorough': 200000}, 'shards': {'quick': 4, 'thorough': 16}},
+          {'pkg': 'c19',
+           'run': 'TestRecover',
+           'checks': {'quick': 3000, 'thorough': 100000},
+           'shards': {'quick': 2, 'thorough': 8},
+           'env': {'GODEBUG': 'panicnil=1'}}]},
 }
